@@ -3,6 +3,8 @@ use crate::req::{Req, Resp};
 use std::panic::{catch_unwind, AssertUnwindSafe};
 use std::sync::Once;
 
+#[cfg(curve25519_dalek_verif)]
+pub mod field;
 pub mod helpers;
 pub mod scalar;
 
@@ -40,6 +42,12 @@ fn dispatch(req: &Req) -> Out {
     let a = &req.a;
     if op.starts_with("sc.") {
         return scalar::exec(op, a);
+    }
+    #[cfg(curve25519_dalek_verif)]
+    {
+        if op.starts_with("fe.") {
+            return field::exec(op, a);
+        }
     }
     Out::Unknown
 }
